@@ -131,6 +131,8 @@ def main():
     for a in args:
         if a == "all":
             for pid in sorted(os.listdir(root)):
+                if not os.path.isdir(os.path.join(root, pid)):
+                    continue
                 for x in sorted(os.listdir(os.path.join(root, pid))):
                     targets.append((pid, x))
         elif "/" in a:
